@@ -231,7 +231,17 @@ class Heads:
 
     def __init__(self) -> None:
         self.square: Dict[str, Rat] = {}
+        self.pows: Dict[str, Tuple[Rat, Rat]] = {}
         self.n = 0
+
+    def power(self, base: Rat, exponent: Rat) -> str:
+        for k, (b, e) in self.pows.items():
+            if b == base and e == exponent:
+                return k
+        self.n += 1
+        name = f"POW#{self.n}"
+        self.pows[name] = (base, exponent)
+        return name
 
     def sqrt(self, e: Rat) -> Rat:
         # monomial: exact half power
@@ -605,6 +615,15 @@ class Interp:
                 base.fields[t.attr] = v
                 return
             return
+        if isinstance(t, ast.Subscript):
+            # store into a (module-level) table: recorded, not modelled
+            keys: List[AV] = []
+            cur: ast.AST = t
+            while isinstance(cur, ast.Subscript):
+                keys.insert(0, self.eval(fi, cur.slice, env))
+                cur = cur.value
+            self.events.append(Event("store", t, {"table": ast.unparse(cur), "keys": keys, "value": v, "func": fi.qual}))
+            return
         raise Unsupported(f"assignment target {ast.unparse(t)} at {fi.where(t)}")
 
     # --------------------------------------------------------- refinement
@@ -724,7 +743,13 @@ class Interp:
             t = self.eval(fi, e.test, env)
             if isinstance(t, BoolV) and t.value is not None:
                 return self.eval(fi, e.body if t.value else e.orelse, env)
-            return OpaqueV("undecided conditional expression")
+            # undecided: a choice point (the function is re-interpreted for the other arm)
+            i = len(self.choice_log)
+            k = self.choice_plan[i] if i < len(self.choice_plan) else 0
+            self.choice_log.append(2)
+            truth = (k == 0)
+            self.choice_notes.append(("ifexp", [(ast.unparse(e.test), truth)]))
+            return self.eval(fi, e.body if truth else e.orelse, env)
         if isinstance(e, ast.Dict):
             if not e.keys:
                 return GroupV("F", (), {"empty"}, True)
@@ -972,7 +997,9 @@ class Interp:
         if op == "Pow":
             e = self.rat_as_lin(b.rat)
             if e is None:
-                raise Unsupported(f"power with a non-linear exponent at {fi.where(node)}")
+                # exp head: base ** <rational function>; kept opaque, base and exponent recorded
+                name = self.heads.power(a.rat, b.rat)
+                return NumV(Rat.atom(name), None)
             if a.rat.d == Poly.const(1) and a.rat.n.terms and all(not m for m in a.rat.n.terms) and not e.is_const:
                 # constant ** symbolic: exp head, keep as atom base
                 c = a.rat.n.terms[()]
@@ -1074,6 +1101,7 @@ class Interp:
                 ut = args[0].ut
                 return NumV(self.heads.sqrt(args[0].rat), self.unit_pow(ut, Lin(Fraction(1, 2))) if ut else None)
             if f.attr == "log" and args and all(isinstance(a, NumV) for a in args):
+                self.events.append(Event("log", e, {"arg": args[0], "func": fi.qual}))
                 x = args[0].rat  # type: ignore[union-attr]
                 if len(args) == 1:
                     return NumV(self.ln(x))
